@@ -6,7 +6,7 @@
 # Writes /verif/seeded/<name>/{patch.diff,demo.cpp,meta.json}; removes the scratch worktree.
 ID=$1; NAME=${2:-$ID}
 VERIF=${VERIF:-/verif}
-SRC=/tmp/mut; W=/tmp/chk/$NAME; OUT=$VERIF/seeded/$NAME
+SRC=/tmp/mut; W=/tmp/seedchk/$NAME; OUT=$VERIF/seeded/$NAME
 mkdir -p $OUT; rm -rf $W; git -C /repo worktree prune
 git -C /repo worktree add -q --detach $W HEAD || exit 2
 cp $SRC/$NAME.patch.diff $OUT/patch.diff; cp $SRC/$NAME.demo.cpp $OUT/demo.cpp
